@@ -82,7 +82,9 @@ M = [
     ('dfu_size_guard_ge', D, "    if len(firmware) > (page_size * page_count):", "    if len(firmware) > (page_size * page_count) + page_size - 1:", ['C19', 'C18'], 'oversize by < 1 page accepted'),
     ('dfu_error_ignored_last_page', D, "        if status != STATUS_OK:\n            print()\n            raise SystemExit('error writing page", "        if status != STATUS_OK and page != pages - 1:\n            print()\n            raise SystemExit('error writing page", ['C19'], 'error on the last write ignored'),
     ('dfu_erase_error_ignored', D, "        if status != STATUS_OK:\n            print()\n            raise SystemExit('error erasing page", "        if status != STATUS_OK and status != STATUS_ERR_VERIFY:\n            print()\n            raise SystemExit('error erasing page", ['C19'], 'one status code ignored'),
-    ('dfu_write_before_poll', D, "        # poll state til not busy\n        status, state = dfu_get_status(dev)\n        while state == STATE_DFU_DNBUSY:\n            status, state = dfu_get_status(dev)\n\n        if status != STATUS_OK:\n            print()\n            raise SystemExit('error setting address", "        # poll state til not busy\n        status, state = dfu_get_status(dev)\n\n        if status != STATUS_OK:\n            print()\n            raise SystemExit('error setting address", ['C18'], 'set-address busy polls not awaited'),
+    ('dfu_transient_error_ignored', D, "        while state == STATE_DFU_DNBUSY and status == STATUS_OK:\n            status, state = dfu_get_status(dev)\n\n        if status != STATUS_OK:\n            print()\n            raise SystemExit('error erasing page", "        while state == STATE_DFU_DNBUSY:\n            status, state = dfu_get_status(dev)\n\n        if status != STATUS_OK:\n            print()\n            raise SystemExit('error erasing page", ['C19'], 'F45 undone for the erase wait'),
+    ('names_read_by_python_again', A, "        expr = re.sub(r'''[^\\s()\\[\\]{}+\\-*/%&|^~<>=!,:;'\"@#]+''', named, expr)\n", "", ['C08'], 'F44 undone'),
+    ('dfu_write_before_poll', D, "        # poll state til not busy (an error status ends the wait whichever state comes with it)\n        status, state = dfu_get_status(dev)\n        while state == STATE_DFU_DNBUSY and status == STATUS_OK:\n            status, state = dfu_get_status(dev)\n\n        if status != STATUS_OK:\n            print()\n            raise SystemExit('error setting address", "        # poll state til not busy\n        status, state = dfu_get_status(dev)\n\n        if status != STATUS_OK:\n            print()\n            raise SystemExit('error setting address", ['C18'], 'set-address busy polls not awaited'),
     ('string_utf16', A, "        blob = Blob(item.line, item.value.encode('utf-8'))", "        blob = Blob(item.line, item.value.encode('utf-8') if item.value.isascii() else item.value.encode('utf-8')[:-1] + b'?')", ['C10', 'C03'], 'last byte of non-ASCII strings replaced'),
     ('include_bytes_truncate', A, "        with open(item.path, 'rb') as f:\n            data = f.read()\n\n        # defense against the dark race conditions\n        assert len(data) == item.fsize", "        with open(item.path, 'rb') as f:\n            data = f.read()\n        if len(data) > 4096:\n            data = data[:4096] + bytes(len(data) - 4096)\n\n        # defense against the dark race conditions\n        assert len(data) == item.fsize", ['C10'], 'big blobs zeroed after 4 KiB'),
     ('compress_fails_on_alias_shift', A, "Arithmetic(str(lookup_register(item.rs2)))", "Arithmetic(item.rs2)", ['C12'], '[all] re-introduces F4'),
@@ -99,8 +101,8 @@ CONTROLS = [
     ('ctl_error_format', A, ["        s = 'File \"{}\", line {}\\n  {}'"], ["        s = '{}:{}: {}'"], [], 'gcc-style file:line: message'),
     ('ctl_module_cache', A, ["def is_int(value):\n    try:\n        int(value, base=0)\n        return True\n    except:\n        return False"], ["_IS_INT_CACHE = {}\n\n\ndef is_int(value):\n    if value in _IS_INT_CACHE:\n        return _IS_INT_CACHE[value]\n    try:\n        int(value, base=0)\n        res = True\n    except:\n        res = False\n    _IS_INT_CACHE[value] = res\n    return res"], [], 'module-level memo that does not change results'),
     ('ctl_messages_reworded', A, ["raise ValueError('12-bit immediate must be between -0x800 (-2048) and 0x7ff (2047): {}'.format(imm))"], ["raise ValueError('immediate {} does not fit in 12 bits'.format(imm))"], [], '[all] error text changed'),
-    ('ctl_dfu_poll_helper', D, ["        # poll state til not busy\n        status, state = dfu_get_status(dev)\n        while state == STATE_DFU_DNBUSY:\n            status, state = dfu_get_status(dev)\n\n        if status != STATUS_OK:\n            print()\n            raise SystemExit('error erasing page", "    print()\n    print('done!')"],
-     ["        # poll state til not busy\n        status, state = dfu_get_status(dev)\n        while state == STATE_DFU_DNBUSY:\n            time.sleep(0.001)\n            status, state = dfu_get_status(dev)\n\n        if status != STATUS_OK:\n            print()\n            raise SystemExit('error erasing page", "    print()\n    dev.ctrl_transfer(USB_ENDPOINT_OUT | USB_REQUEST_TYPE_CLASS | USB_RECIPIENT_INTERFACE, REQUEST_DFU_DNLOAD, data_or_wLength=b'', timeout=1000)\n    print('finished, leaving DFU mode')"], [], 'extra sleep, DfuSe leave request at the end, other final message'),
+    ('ctl_dfu_poll_helper', D, ["        # poll state til not busy (an error status ends the wait whichever state comes with it)\n        status, state = dfu_get_status(dev)\n        while state == STATE_DFU_DNBUSY and status == STATUS_OK:\n            status, state = dfu_get_status(dev)\n\n        if status != STATUS_OK:\n            print()\n            raise SystemExit('error erasing page", "    print()\n    print('done!')"],
+     ["        # poll state til not busy (an error status ends the wait whichever state comes with it)\n        status, state = dfu_get_status(dev)\n        while state == STATE_DFU_DNBUSY and status == STATUS_OK:\n            time.sleep(0.001)\n            status, state = dfu_get_status(dev)\n\n        if status != STATUS_OK:\n            print()\n            raise SystemExit('error erasing page", "    print()\n    dev.ctrl_transfer(USB_ENDPOINT_OUT | USB_REQUEST_TYPE_CLASS | USB_RECIPIENT_INTERFACE, REQUEST_DFU_DNLOAD, data_or_wLength=b'', timeout=1000)\n    print('finished, leaving DFU mode')"], [], 'extra sleep, DfuSe leave request at the end, other final message'),
 ]
 
 
